@@ -137,6 +137,10 @@ impl<M: Math, A: MassMatrixAdaptStrategy<M>> AdaptStrategy<M> for GlobalStrategy
             return Ok(());
         }
 
+        // The step size used for the first draw after warmup is the averaged one,
+        // also if the final step size window is empty.
+        let is_last = draw == self.num_tune - 1;
+
         if draw < self.final_step_size_window {
             let is_early = draw < self.early_end;
 
@@ -210,13 +214,12 @@ impl<M: Math, A: MassMatrixAdaptStrategy<M>> AdaptStrategy<M> for GlobalStrategy
                 self.step_size
                     .init(math, options, hamiltonian, &position, rng)?;
             } else {
-                self.step_size.update_stepsize(rng, hamiltonian, false)
+                self.step_size.update_stepsize(rng, hamiltonian, is_last)
             }
             return Ok(());
         }
 
         self.step_size.update_estimator_late();
-        let is_last = draw == self.num_tune - 1;
         self.step_size.update_stepsize(rng, hamiltonian, is_last);
         Ok(())
     }
